@@ -14,7 +14,7 @@ Grammar (everything else is refused)
                list whose items are only ever created with fresh list displays) | d.extendleft(e) | m.update(e)
                | p[i] = e (list item, dict entry) | m[k].value = e (attribute of an object found in a mapping)
                | del m[k] | if/elif/else | `if x is None: x = e` | for <name or pair> in <iterable> | while <condition>
-               (fuel from the signature table: exhausted fuel is the result None) | break | continue | return e (not in a
+               (fuel: one more than the total length of the lists in the loop state; exhausted fuel is the result None) | break | continue | return e (not in a
                loop) | raise <anything> | try: <one statement> except ...: ... raise (an exception stays an exception)
                | docstrings.   p is a local name or an attribute of a record (self.arguments, self.mapping, pset.context).
   iterables    a list | enumerate(l) (read live when l is changed by item assignment in the body) | reversed(e) | list(e)
@@ -126,8 +126,7 @@ ATTRS = {
 # ---- signature table (trusted) -------------------------------------------------------------------------------
 # py: function name, cls: class or None, gen: name of the regenerated definition, coq_params: binder text,
 # env: Python parameter -> type ("self" of an object type: attribute -> (Coq name, type)), heap: the pset holding the
-# Terminal.value of the argument terminals when nodes are printed, fuel: fuel of the while loops (over the state at
-# loop entry), ends: "return" | "self", placeholder: the hand model in the same signature.
+# Terminal.value of the argument terminals when nodes are printed, ends: "return" | "self", placeholder: the hand model in the same signature.
 FUNCS = [
     dict(py="format", cls="Primitive", gen="gen_Primitive_format",
          coq_params="(self_seq : seqstr) (v_args : list string)",
@@ -139,7 +138,7 @@ FUNCS = [
          placeholder="apply_conv self_conv_fct self_value"),
     "INTERLUDE_FORMAT",
     dict(py="__str__", cls="PrimitiveTree", gen="gen_str", coq_params="(ps : pset) (v_self : list node)",
-         env={"self": L("node")}, heap="ps", fuel="(S (List.length v_stack))", ends="return",
+         env={"self": L("node")}, heap="ps", ends="return",
          placeholder="Some (str_tree ps v_self)"),
     dict(py="from_string", cls="PrimitiveTree", gen="gen_from_string",
          coq_params="(sub : ty -> ty -> bool) (v_string : string) (v_pset : pset)",
@@ -1122,10 +1121,13 @@ class Tr(object):
     def while_(self, s, env, cont):
         if s.orelse:
             refuse(s, "while-else")
-        if "fuel" not in self.sig:
-            refuse(s, "no fuel declared for a while loop of this function")
         state = self.loop_state(s, env, [])
-        fuel = self.sig["fuel"]
+        # fuel: one more than the total length of the lists in the loop state at entry.  Not trusted: when it does not
+        # suffice the regenerated function returns None and the equality with the model fails.
+        lists = [v for v in state if is_k(env[v], "list")]
+        if not lists:
+            refuse(s, "while loop without a list in its state (no fuel)")
+        fuel = "(S (%s))" % " + ".join("List.length v_%s" % v for v in lists)
 
         def make(lp, env_in):
             cpre, c = self.pure_bool(s.test, env_in)
